@@ -1102,3 +1102,122 @@ Qed.
 
 Lemma ex_all_served_ok : all_served_ok ex_source.
 Proof. exact ex_served_ok. Qed.
+
+(* ------------------------------------------------------------------ failing source operations
+   Success with a fault armed means the fault was never reached, and the result is the fault-free
+   one: no error is swallowed into a partial predecessor list or a partial root set. *)
+
+Lemma filter_e_ok need fill keep ps : forall k kept k',
+  filter_e need fill keep ps k = Some (kept, k') -> kept = List.filter keep (map fill ps).
+Proof.
+  induction ps as [|p ps IH]; intros k kept k' H; simpl in H.
+  - injection H as <- _. reflexivity.
+  - destruct (if need p then tick k else Some k) as [k1|]; [|discriminate].
+    destruct (filter_e need fill keep ps k1) as [[kept1 k2]|] eqn:E; [|discriminate].
+    injection H as <- _. simpl. rewrite (IH _ _ _ E). destruct (keep (fill p)); reflexivity.
+Qed.
+
+Lemma filter_e_nofault need fill keep ps :
+  filter_e need fill keep ps 0 = Some (List.filter keep (map fill ps), 0).
+Proof.
+  induction ps as [|p ps IH]; cbn [filter_e map List.filter]; auto.
+  assert (E : (if need p then tick 0 else Some 0) = Some 0) by (destruct (need p); reflexivity).
+  rewrite E, IH. destruct (keep (fill p)); reflexivity.
+Qed.
+
+Lemma apply_filter_e_ok s f ps k ps' k' :
+  apply_filter_e s f ps k = Some (ps', k') -> ps' = apply_filter s f ps.
+Proof.
+  destruct f as [[re|] | key re]; simpl; intro H.
+  - now apply filter_e_ok in H.
+  - now injection H as <- _.
+  - now apply filter_e_ok in H.
+Qed.
+
+Lemma apply_filter_e_nofault s f ps : apply_filter_e s f ps 0 = Some (apply_filter s f ps, 0).
+Proof. destruct f as [[re|] | key re]; simpl; auto using filter_e_nofault. Qed.
+
+Lemma fold_step_e_none s fs : fold_left (step_e s) fs None = None.
+Proof. induction fs; simpl; auto. Qed.
+
+Lemma fold_step_e_ok s fs : forall first ps k b ps' k',
+  fold_left (step_e s) fs (Some (first, ps, k)) = Some (b, ps', k') ->
+  fold_left (step_gen fill_at s) fs (first, ps) = (b, ps').
+Proof.
+  induction fs as [|f fs IH]; intros first ps k b ps' k' H; simpl in *.
+  - now injection H as <- <- _.
+  - unfold step_gen at 2. simpl. destruct (is_noop f); [eapply IH; eauto|].
+    destruct (first && s_lister s)%bool; [eapply IH; eauto|].
+    destruct (apply_filter_e s f ps k) as [[ps1 k1]|] eqn:E.
+    + apply apply_filter_e_ok in E. subst ps1. eapply IH; eauto.
+    + rewrite fold_step_e_none in H. discriminate.
+Qed.
+
+Lemma fold_step_e_nofault s fs : forall first ps,
+  fold_left (step_e s) fs (Some (first, ps, 0)) =
+  Some (fst (fold_left (step_gen fill_at s) fs (first, ps)),
+        snd (fold_left (step_gen fill_at s) fs (first, ps)), 0).
+Proof.
+  induction fs as [|f fs IH]; intros first ps; simpl; auto.
+  unfold step_gen at 2 4. simpl. destruct (is_noop f); [apply IH|].
+  destruct (first && s_lister s)%bool; [apply IH|].
+  rewrite apply_filter_e_nofault. apply IH.
+Qed.
+
+Lemma find_preds_e_ok s fs x k ps k' :
+  find_preds_e s fs x k = Some (ps, k') -> ps = find_preds s fs x.
+Proof.
+  unfold find_preds_e, find_preds, find_preds_gen. destruct (tick k) as [k1|]; [|discriminate].
+  destruct (fold_left (step_e s) fs (Some (true, s_preds s x, k1))) as [[[b ps1] k2]|] eqn:E; [|discriminate].
+  intro H. injection H as <- _. apply fold_step_e_ok in E. now rewrite E.
+Qed.
+
+Lemma find_preds_e_nofault s fs x : find_preds_e s fs x 0 = Some (find_preds s fs x, 0).
+Proof.
+  unfold find_preds_e, find_preds, find_preds_gen. simpl. now rewrite fold_step_e_nofault.
+Qed.
+
+Lemma dfs_e_ok fuel s fs limit : forall st V R k roots,
+  dfs_e fuel s fs limit st V R k = ROk roots ->
+  dfs fuel (find_preds s fs) limit st V R = Some roots.
+Proof.
+  induction fuel as [|fuel IH]; intros st V R k roots H; cbn [dfs_e dfs] in *; [discriminate|].
+  destruct st as [|[cur d] rest]; [now injection H as <-|].
+  destruct (mem (d_id cur) V); [eapply IH; eauto|].
+  destruct ((0 <? limit)%Z && (Z.of_nat d =? limit)%Z)%bool; [eapply IH; eauto|].
+  destruct (find_preds_e s fs (d_id cur) k) as [[ps k']|] eqn:E; [|discriminate].
+  apply find_preds_e_ok in E. rewrite <- E.
+  destruct ps as [|p0 ps]; eapply IH; eauto.
+Qed.
+
+Lemma dfs_e_nofault fuel s fs limit : forall st V R,
+  dfs_e fuel s fs limit st V R 0 =
+  match dfs fuel (find_preds s fs) limit st V R with Some roots => ROk roots | None => RFuel end.
+Proof.
+  induction fuel as [|fuel IH]; intros st V R; cbn [dfs_e dfs]; [reflexivity|].
+  destruct st as [|[cur d] rest]; [reflexivity|].
+  destruct (mem (d_id cur) V); [apply IH|].
+  destruct ((0 <? limit)%Z && (Z.of_nat d =? limit)%Z)%bool; [apply IH|].
+  rewrite find_preds_e_nofault. destruct (find_preds s fs (d_id cur)) as [|p0 ps]; apply IH.
+Qed.
+
+(* success = the fault-free result, whatever fault was armed *)
+Lemma find_roots_e_success fuel s fs limit node k roots :
+  find_roots_e fuel s fs limit node k = ROk roots -> find_roots fuel s fs limit node = Some roots.
+Proof. unfold find_roots_e, find_roots, find_roots_fp. apply dfs_e_ok. Qed.
+
+(* without a fault the error-aware run is the plain one and never fails *)
+Lemma find_roots_e_nofault fuel s fs limit node :
+  find_roots_e fuel s fs limit node 0 =
+  match find_roots fuel s fs limit node with Some roots => ROk roots | None => RFuel end.
+Proof. unfold find_roots_e, find_roots, find_roots_fp. apply dfs_e_nofault. Qed.
+
+(* a reached fault is an error: the first operation failing fails the call *)
+Lemma find_roots_e_first_op fuel s fs limit node :
+  (limit <= 0)%Z -> find_roots_e (S fuel) s fs limit node 1 = RErr.
+Proof.
+  intro Hl. unfold find_roots_e. cbn [dfs_e]. simpl mem.
+  assert (E : ((0 <? limit)%Z && (Z.of_nat 0 =? limit)%Z)%bool = false).
+  { destruct (0 <? limit)%Z eqn:E1; auto. apply Z.ltb_lt in E1. lia. }
+  rewrite E. reflexivity.
+Qed.
